@@ -161,8 +161,9 @@ void ThreePointsNumericalDerivative::updateDerivatives(const ParameterList& para
             vars.push_back(lastVar2);
           p = parameters.createSubList(vars);
 
-          double value1 = function_->getParameterValue(var1);
-          double value2 = function_->getParameterValue(var2);
+          // (the wrapped function may still be at a probe value for these two variables: centre on the requested values)
+          double value1 = p[0].getValue();
+          double value2 = p[1].getValue();
           double h1 = (1. + std::abs(value1)) * h_;
           double h2 = (1. + std::abs(value2)) * h_;
 
